@@ -1,6 +1,11 @@
 package main
 
 var sizeAppendNotAnalysed = map[string]string{
+	"proto.MarshalOptions.sizeField":       "reflection encoder dispatch on list/map/singular with the tag added by the caller on one side and by the callee on the other; outside the recognised idioms, stated as not covered",
+	"proto.MarshalOptions.sizeList":        "reflection encoder: packed/unpacked branch on fd.IsPacked() with speculative length; outside the recognised idioms, stated as not covered",
+	"proto.MarshalOptions.sizeMap":         "reflection encoder: map entries through order.RangeEntries callbacks; outside the recognised idioms, stated as not covered",
+	"proto.MarshalOptions.sizeMessageSet":  "MessageSet framing in the reflection encoder; outside the recognised idioms, stated as not covered",
+	"proto.MarshalOptions.sizeMessageSlow": "per-message loop of the reflection encoder (order.RangeFields callbacks); outside the recognised idioms, stated as not covered",
 	"internal/impl.sizeMap":        "map entries: per-entry sizing branches on whether the value is a message with a MessageInfo and the append side is split over appendMap/appendMapItem/appendMapDeterministic; outside the recognised idioms, stated as not covered",
 	"internal/impl.sizeMessageSet": "MessageSet item framing with lazy-extension branches; outside the recognised idioms, stated as not covered",
 }
@@ -10,8 +15,8 @@ func init() {
 		ID:         "C04",
 		Level:      "other",
 		Technique:  "wire-effect summaries (E1): multiset agreement of size and append siblings over all codec functions; tag-size construction rule (static)",
-		Explain:    "Decides structural necessary conditions of Size(m) == len(Marshal(m)): (1) for every sibling pair sizeX/appendX of the fast-path codec (all generated scalar, pointer, slice, packed and reflection-value coders, message/group coders in open and opaque form) the size function accounts for exactly the multiset of wire operations the append function emits — tag, varint of the same expression, fixed width, length prefix of the same content, raw bytes, nested message — in the same loop context, and both skip the field under the same `nothing to encode` guards (zero tests of implicit-presence fields including the -0.0 test, empty packed lists); (2) every recorded tag size is the varint size of the wire tag recorded next to it.",
-		NotCovered: "map fields (sizeMap/appendMap*), MessageSet framing, the per-message loops sizePointerSlow/marshalAppendPointer and extensions, the reflection slow path in package proto (methods, per-kind switches), finishSpeculativeLength; the size cache (C16); equality on concrete messages.",
+		Explain:    "Decides structural necessary conditions of Size(m) == len(Marshal(m)): (1) for every sibling pair sizeX/appendX of the fast-path codec (all generated scalar, pointer, slice, packed and reflection-value coders, message/group coders in open and opaque form) and of the reflection encoder's per-kind singular codec the size function accounts for exactly the multiset of wire operations the append function emits — tag, varint of the same expression, fixed width, length prefix of the same content, raw bytes, nested message — in the same loop context, and both skip the field under the same `nothing to encode` guards (zero tests of implicit-presence fields including the -0.0 test, empty packed lists); (2) every recorded tag size is the varint size of the wire tag recorded next to it.",
+		NotCovered: "map fields (sizeMap/appendMap*), MessageSet framing, the per-message loops sizePointerSlow/marshalAppendPointer and extensions, the list/map/message loops of the reflection encoder in package proto (its per-kind singular encoder is covered), the arithmetic of finishSpeculativeLength (assumed to leave Varint(len) followed by the payload); the size cache (C16); equality on concrete messages.",
 		Quick:      all("./internal/impl", "./proto", "./internal/encoding/messageset"),
 		Thorough:   all("./..."),
 		Run: func(c *Ctx) {
